@@ -108,6 +108,6 @@ attribute [simd] map32 zip32 zip64 map64 low32 low64 setzero set1_32 set1_64 set
   blend_ps cast128_256 extractf128 insertf128 sel2f128 permute2f128 permute4x64 permutexvar32 permutexvar64 permutex2var32 permutex2var64 hadd_ps hadd_pd
   add_ps sub_ps mul_ps div_ps min_ps max_ps sqrt_ps add_pd sub_pd mul_pd div_pd min_pd max_pd sqrt_pd
   add_ss sub_ss mul_ss add_sd sub_sd mul_sd fmadd_ps fmadd_pd fmsub_ps fmsub_pd fnmadd_ps fnmadd_pd cvt32 cvt64
-  msb_ones32 msb_zero32 hi32_ones lo32_ones hi32_zero lo32_zero loadw loadw_ss loadw_sd storew maskload32 maskload64 maskstore32 maskstore64 kload32 kload64 kstore32 kstore64 of64 append_xor_halves append_andnot_halves abs64_by_sign lo32_mul lo32_append hi32_append hi32_lo32 lane64_of64 of64_lane64
+  loadl_pi msb_ones32 msb_zero32 hi32_ones lo32_ones hi32_zero lo32_zero loadw loadw_ss loadw_sd storew maskload32 maskload64 maskstore32 maskstore64 kload32 kload64 kstore32 kstore64 of64 append_xor_halves append_andnot_halves abs64_by_sign lo32_mul lo32_append hi32_append hi32_lo32 lane64_of64 of64_lane64
 
 end Fastor.Simd
